@@ -232,6 +232,30 @@ func initArrayList() {
 		DefWithParameters(1),
 	)
 	Alias(c, "push", "<<")
+	Def(
+		c,
+		"pop",
+		func(vm *Thread, args []value.Value) (value.Value, value.Value) {
+			self := args[0].AsReference().(value.ArrayList)
+			length := self.Length()
+			if length == 0 {
+				return value.Undefined, value.Ref(value.NewIndexOutOfRangeError("-1", length))
+			}
+			last := self.AtVal(length - 1)
+			self.RemoveAt(length - 1)
+			return last, value.Undefined
+		},
+	)
+	Alias(c, "<<@", "pop")
+	Def(
+		c,
+		"clear",
+		func(vm *Thread, args []value.Value) (value.Value, value.Value) {
+			self := args[0].AsReference().(value.ArrayList)
+			self.Clear()
+			return value.Nil, value.Undefined
+		},
+	)
 
 	Def(
 		c,
